@@ -3,6 +3,7 @@
     IsBlockedClient).  No proofs here. *)
 From Coq Require Import List NArith Bool.
 From AGH Require Import Base.Run Base.NetAddr Base.RuleEngine.
+From AGH Require Model.ClientID.
 Import ListNotations.
 Local Open Scope N_scope.
 
@@ -77,7 +78,7 @@ Definition is_blocked_client (a : access) (ip : option addr) (id : bytes) : bool
   else (false, final).
 
 Definition is_blocked_host (a : access) (host : bytes) (qt : N) : bool :=
-  snd (match_request (ac_hosts a) (mkReq host qt [] None)).
+  snd (match_request (ac_hosts a) (mkReq host qt [] None [])).
 
 (** aghnet.NormalizeDomain *)
 Definition normalize_domain (name : bytes) : bytes :=
@@ -136,3 +137,129 @@ Section Serve.
         (st', match c with Some id => id :: cache | None => cache end, Answer r)
     end.
 End Serve.
+
+(** * HandleBefore as the code runs it: ClientID extraction (the model of
+      property C16, Model/ClientID.v) in front of the access decision, and the
+      ClientID cache as state. *)
+
+Definition cid_proto (p : proto) : Model.ClientID.proto :=
+  match p with
+  | PUDP => Model.ClientID.UDP
+  | PTCP => Model.ClientID.TCP
+  | PTLS => Model.ClientID.DoT
+  | PHTTPS => Model.ClientID.DoH
+  | PQUIC => Model.ClientID.DoQ
+  | PDNSCrypt => Model.ClientID.DNSCrypt
+  end.
+
+(** The two fields of TLSConfig that HandleBefore reads. *)
+Record tlsconf := mkTlsConf { tc_server_name : bytes; tc_strict : bool }.
+
+Definition mk_doh (path : bytes) (tls_sni : option bytes) (host_hdr : bytes) : Model.ClientID.doh_req :=
+  Model.ClientID.Build_doh_req path tls_sni host_hdr.
+
+(** What HandleBefore reads from the proxy.DNSContext: protocol, the server
+    name of the TLS / QUIC connection state ([None]: the connection has none),
+    the HTTP request of a DoH query (URL path, TLS server name, Host), client
+    address ([None] = the zero netip.Addr), the single question ([None] = zero
+    or several) and dnsproxy's request id. *)
+Record dnsctx := mkCtx {
+  cx_proto : proto;
+  cx_sni : option bytes;
+  cx_http : option Model.ClientID.doh_req;
+  cx_ip : option addr;
+  cx_q : option (bytes * N);
+  cx_rid : N
+}.
+
+(** Server.clientIDFromDNSContext, errors collapsed ([None]). *)
+Definition extract_clientid (t : tlsconf) (x : dnsctx) : option bytes :=
+  match Model.ClientID.client_id_of (cid_proto (cx_proto x)) (tc_server_name t) (tc_strict t)
+          (cx_sni x) (cx_http x) with
+  | Model.ClientID.CidOk id => Some id
+  | Model.ClientID.CidErr _ => None
+  end.
+
+Definition handle_before_ctx (a : access) (t : tlsconf) (x : dnsctx) : before :=
+  handle_before a (cx_proto x) (extract_clientid t x) (cx_ip x) (cx_q x).
+
+(** golibs/cache with EnableLRU and MaxCount = [cap] ([0] = unlimited), keys
+    = the 8 big-endian bytes of the request id, read as the number: the
+    entries, least recently used first. *)
+Definition cid_cache := list (N * bytes).
+
+Definition cache_remove (k : N) (c : cid_cache) : cid_cache :=
+  filter (fun e => negb (fst e =? k)) c.
+
+Fixpoint cache_find (k : N) (c : cid_cache) : option bytes :=
+  match c with
+  | [] => None
+  | (k', v) :: r => if k' =? k then Some v else cache_find k r
+  end.
+
+(** cache.Set: a full cache first drops its least recently used entry (also
+    when the key is already present), then the key's old entry goes and the
+    new one becomes the most recently used. *)
+Definition cache_set (cap : N) (c : cid_cache) (k : N) (v : bytes) : cid_cache :=
+  let c1 := if N.of_nat (length c) =? cap then tl c else c in
+  cache_remove k c1 ++ [(k, v)].
+
+(** cache.Get: a hit makes the entry the most recently used. *)
+Definition cache_get (c : cid_cache) (k : N) : cid_cache * option bytes :=
+  match cache_find k c with
+  | Some v => (cache_remove k c ++ [(k, v)], Some v)
+  | None => (c, None)
+  end.
+
+(** HandleBefore with its effect on the cache: an entry is written exactly
+    when the request is let through and its ClientID is not empty. *)
+Definition before_step (cap : N) (a : access) (t : tlsconf) (x : dnsctx) (c : cid_cache)
+    : cid_cache * before :=
+  let b := handle_before_ctx a t x in
+  (match b with BContinue (Some id) => cache_set cap c (cx_rid x) id | _ => c end, b).
+
+(** processInitial: dctx.clientID = string(s.clientIDCache.Get(key)). *)
+Definition initial_read (c : cid_cache) (rid : N) : cid_cache * bytes :=
+  let '(c', v) := cache_get c rid in
+  (c', match v with Some id => id | None => [] end).
+
+(** Histories over one server: pre-request hooks and processInitial reads in
+    any interleaving. *)
+Inductive hop := HBefore (x : dnsctx) | HInitial (rid : N).
+Inductive hobs := OBefore (b : before) | OInitial (id : bytes).
+
+Definition hist_step (cap : N) (a : access) (t : tlsconf) (c : cid_cache) (o : hop) : cid_cache * hobs :=
+  match o with
+  | HBefore x => let '(c', b) := before_step cap a t x c in (c', OBefore b)
+  | HInitial rid => let '(c', id) := initial_read c rid in (c', OInitial id)
+  end.
+
+Fixpoint run_hist (cap : N) (a : access) (t : tlsconf) (c : cid_cache) (ops : list hop)
+    : cid_cache * list hobs :=
+  match ops with
+  | [] => (c, [])
+  | o :: rest =>
+      let '(c1, ob) := hist_step cap a t c o in
+      let '(c2, obs) := run_hist cap a t c1 rest in
+      (c2, ob :: obs)
+  end.
+
+(** The server in front of a request handler that is given the ClientID
+    processInitial reads back from the cache. *)
+Section ServeCtx.
+  Context {S Req Resp : Type}.
+  Variable handler : S -> bytes -> Req -> S * Resp.
+
+  Definition serve_ctx (cap : N) (a : access) (t : tlsconf) (x : dnsctx)
+      (c : cid_cache) (st : S) (rq : Req) : S * cid_cache * @reply Resp :=
+    let '(c1, b) := before_step cap a t x c in
+    match b with
+    | BServfail => (st, c1, Servfail)
+    | BDrop => (st, c1, NoReply)
+    | BRefused => (st, c1, Refused)
+    | BContinue _ =>
+        let '(c2, id) := initial_read c1 (cx_rid x) in
+        let '(st', r) := handler st id rq in
+        (st', c2, Answer r)
+    end.
+End ServeCtx.
